@@ -687,7 +687,8 @@ fn cmp_val(v: &Val, j: &Value, dontcare: &mut u64) -> Result<(), Mismatch> {
         Val::Str(s) => {
             let got: &str = match j {
                 Value::String(t) => t.as_str(),
-                Value::Object(m) if s.contains(':') && m.len() == 1 => {
+                // a string with a space, tab, newline or double quote is certainly no valid IRI (RFC 3987) and has to stay a string
+                Value::Object(m) if s.contains(':') && m.len() == 1 && !s.chars().any(|c| c == ' ' || c == '\t' || c == '\n' || c == '"') => {
                     // "Any String value that is a valid IRI SHOULD be interpreted as such": {"id": iri}
                     match m.get("id").or_else(|| m.get("@id")) {
                         Some(Value::String(t)) => {
